@@ -322,8 +322,9 @@ def behaviour(rng, flavour):
     else:
         n = rng.choice([1, 2, 3, 3, 4, 5])
         elems = [elem_c09(nm, rng) for _ in range(n)]
-        cwrap = rng.choice(["", "", "box", "arc", "boxbox"])
+        cwrap = rng.choice(["", "", "box", "arc", "boxbox", "static"])
     return {"src": "random-" + flavour, "stack": elems, "flat": flatten(elems), "cwrap": cwrap, "log_reg": flavour == "c09",
+            "bystander": flavour == "c09" and rng.random() < 0.4,
             "steps": history(rng, 50, rng.choice([1, 1, 2]), flavour, elems)}
 
 
